@@ -45,7 +45,14 @@ type progDef struct {
 	// actOn: is this frame, with this map state, one the program is specified to act on (statement of C07)?
 	// nil = the program never has a licence to modify a frame it passes.
 	actOn func(fr []byte, st *state) bool
-	looks []uint16 // ethertypes the program examines (NT rule)
+	// mayNotPass: may the program, by the statement, answer this frame in this map state with anything but
+	// its pass verdict?  Only frames it is specified to act on (a DHCP request answerable from the cache, a
+	// packet that anti-spoofing is enforced on, a packet of a rate-limited subscriber, a flow of a NAT
+	// subscriber) - everything else, in particular every frame that cannot be parsed far enough to decide
+	// (runt, truncated, not IP), is "other traffic" and must get XDP_PASS / TC_ACT_OK.
+	// nil = same predicate as actOn (and with actOn nil too: the program must pass everything).
+	mayNotPass func(fr []byte, st *state) bool
+	looks      []uint16 // ethertypes the program examines (NT rule)
 }
 
 var programs = []progDef{
@@ -57,6 +64,16 @@ var programs = []progDef{
 		// "a DHCP request answered from the cache" is a frame that leaves with XDP_TX; a frame handed to
 		// the stack with XDP_PASS was by definition not answered, so PASS never licenses a modification.
 		actOn: nil,
+		// ... and it can only be answered (TX, or dropped half-built) if it is at least a complete
+		// Ethernet/IPv4/UDP/BOOTP frame (14+20+8+240 bytes) behind an IPv4 or VLAN ethertype and some cache
+		// map holds an entry; the harness does not re-implement the option parser to narrow this further.
+		mayNotPass: func(fr []byte, st *state) bool {
+			et, ok := be16(fr, 12)
+			if !ok || (et != etIPv4 && et != etQ && et != etAD) || len(fr) < 14+20+8+240 {
+				return false
+			}
+			return st.any("subscriber_pools") || st.any("vlan_subscriber_pools") || st.any("circuit_id_subscribers")
+		},
 		looks: []uint16{etIPv4, etQ, etAD},
 	},
 	{
@@ -71,6 +88,30 @@ var programs = []progDef{
 			var m [6]byte
 			copy(m[:], fr[6:12])
 			return st.has("subscriber_bindings", macKey(m))
+		},
+		// Enforcement (drop) applies to IPv4/IPv6 packets with a complete IP header whose effective mode -
+		// the binding's, or the configured default for a MAC without binding (default-deny deployments) -
+		// is neither "disabled" (0) nor "log only" (3).
+		mayNotPass: func(fr []byte, st *state) bool {
+			et, ok := be16(fr, 12)
+			switch {
+			case !ok:
+				return false
+			case et == etIPv4 && len(fr) >= 14+20:
+			case et == etIPv6 && len(fr) >= 14+40:
+			default:
+				return false
+			}
+			var m [6]byte
+			copy(m[:], fr[6:12])
+			mode := byte(0)
+			if cfg := st.get("antispoof_config", le32(0)); len(cfg) > 0 {
+				mode = cfg[0]
+			}
+			if b := st.get("subscriber_bindings", macKey(m)); len(b) > 22 {
+				mode = b[22]
+			}
+			return mode != 0 && mode != 3
 		},
 		looks: []uint16{etIPv4, etIPv6},
 	},
@@ -139,6 +180,46 @@ var programs = []progDef{
 		actOn:    nil, // detection only: it always passes and must never touch the frame
 		looks:    []uint16{etIPv4},
 	},
+}
+
+func (pd *progDef) canRefuse(fr []byte, st *state) bool {
+	if pd.mayNotPass != nil {
+		return pd.mayNotPass(fr, st)
+	}
+	return pd.actOn != nil && pd.actOn(fr, st)
+}
+
+// frameShape names how far the frame can be parsed at all (independent of program and map state).
+func frameShape(fr []byte) string {
+	if len(fr) < 14 {
+		return "runt-eth"
+	}
+	off, tags := 12, ""
+	for i := 0; i < 3; i++ {
+		et, ok := be16(fr, off)
+		if !ok || (et != etQ && et != etAD) {
+			break
+		}
+		off, tags = off+4, "vlan-"
+	}
+	et, ok := be16(fr, off)
+	l3 := off + 2
+	switch {
+	case !ok:
+		return tags + "runt-tag"
+	case et == etIPv4 && len(fr) < l3+20:
+		return tags + "runt-ipv4"
+	case et == etIPv4:
+		if _, _, c := l4Complete(fr[off-12:]); c {
+			return tags + "ipv4-l4"
+		}
+		return tags + "ipv4"
+	case et == etIPv6 && len(fr) < l3+40:
+		return tags + "runt-ipv6"
+	case et == etIPv6:
+		return tags + "ipv6"
+	}
+	return tags + "non-ip"
 }
 
 func progByName(n string) *progDef {
@@ -335,6 +416,12 @@ func checkCase(t vstat.Fataler, c *bpfnative.Client, tc *tcase) outcome {
 					pl, verdictName(pi.Kind, res.Verdict), len(res.Out), hex.EncodeToString(res.Out))
 			}
 		}
+		if !pass && verdictDefined(pi.Kind, res.Verdict) && !pd.canRefuse(tc.Frame, &tc.State) {
+			fail("C07/"+tc.Prog+"/not-passed/"+frameShape(tc.Frame),
+				"%s placement: verdict %s (%d) for a frame the program is not specified to act on (must be %s); frame returned modified: %v",
+				pl, verdictName(pi.Kind, res.Verdict), res.Verdict, map[int]string{bpfnative.KindXDP: "XDP_PASS", bpfnative.KindTC: "TC_ACT_OK"}[pi.Kind],
+				!bytes.Equal(res.Out, tc.Frame))
+		}
 		for i, s := range c.Sites() {
 			if res.SiteHit(i) {
 				cov[s.Map] = true
@@ -377,6 +464,14 @@ func checkCase(t vstat.Fataler, c *bpfnative.Client, tc *tcase) outcome {
 	}
 	if tc.State.Tailroom == 0 {
 		out.classes = append(out.classes, "no-tailroom")
+	}
+	if pd.canRefuse(tc.Frame, &tc.State) {
+		out.classes = append(out.classes, "may-refuse")
+	} else {
+		out.classes = append(out.classes, "must-pass", "must-pass:"+frameShape(tc.Frame))
+	}
+	if cfg := tc.State.get("nat_config_map", le32(0)); len(cfg) >= 4 && cfg[0]&natFlagHairpin != 0 {
+		out.classes = append(out.classes, "hairpin-enabled")
 	}
 	// per-program class names ("prog:<tag>" is the denominator), plus the global generator mix
 	tag := pd.tag
